@@ -27,7 +27,9 @@
 (* GET /slow/20/i, so that free capacity is visibly used.                  *)
 (*                                                                         *)
 (* Case fields                                                             *)
-(*   server    "plain" | "tls" | "unix"                                    *)
+(*   server    "plain" | "tls" | "unix" | "tls2" (TLS offering HTTP/2) |   *)
+(*             "h2c" (HTTP/2 without TLS, and HTTP/1.1)                    *)
+(*   http2     -http2 (default true)     h2c   -h2c                        *)
 (*   trust     "na" | "insecure" | "rootcert" | "none"   (tls only)        *)
 (*   format    "http" | "json"                                             *)
 (*   lazy      -lazy: the list is read while attacking and its end stops   *)
@@ -56,17 +58,20 @@ Min(a, b) == IF a <= b THEN a ELSE b
 
 Base == [server |-> "plain", trust |-> "na", format |-> "http", lazy |-> TRUE, bad |-> "none", rate |-> 0, maxw |-> 1, workers |-> 1,
          name |-> "", hdr |-> FALSE, body |-> FALSE, chunked |-> FALSE, maxbody |-> -1, redirects |-> "default", keepalive |-> TRUE,
-         timeout |-> "default", connectto |-> FALSE, laddr |-> FALSE, prom |-> FALSE, maxconn |-> 0, hosts |-> 1]
+         timeout |-> "default", connectto |-> FALSE, laddr |-> FALSE, prom |-> FALSE, maxconn |-> 0, hosts |-> 1,
+         http2 |-> TRUE, h2c |-> FALSE]
 
 Valid(c) ==
-    /\ c.server \in {"plain", "tls", "unix"} /\ c.format \in {"http", "json"} /\ c.bad \in {"none", "late"}
-    /\ (c.server = "tls") = (c.trust # "na") /\ c.trust \in {"na", "insecure", "rootcert", "none"}
+    /\ c.server \in {"plain", "tls", "unix", "tls2", "h2c"} /\ c.format \in {"http", "json"} /\ c.bad \in {"none", "late"}
+    /\ (c.server \in {"tls", "tls2"}) = (c.trust # "na")
+    /\ (c.h2c => c.server = "h2c") /\ c.trust \in {"na", "insecure", "rootcert", "none"}
     /\ c.rate \in {0, 50, 200} /\ c.maxw \in {1, 3} /\ c.workers \in {1, 3}
     /\ c.maxbody \in {-1, 0, 2, 9} /\ c.redirects \in {"default", "nofollow"} /\ c.timeout \in {"default", "short"}
     /\ (c.prom => c.lazy /\ c.maxw = 1 /\ c.trust # "none" /\ c.bad = "none" /\ c.timeout = "default")   \* the waiting target must come last
     /\ (c.server = "unix" => ~c.connectto /\ ~c.laddr)
-    /\ (c.connectto => c.server = "plain")
+    /\ (c.connectto => c.server \in {"plain", "h2c"} /\ ~c.h2c)   \* -h2c swaps the transport: options applied after it are ignored (see DESIGN)
     /\ c.maxconn \in {0, 1, 2} /\ c.hosts \in {1, 2} /\ (c.hosts = 2 => c.connectto)
+    /\ (c.timeout = "short" => c.maxconn = 0)      \* hits queueing for a connection held by the slow one would time out too
 
 \* one factor at a time from the base, and from the eager base; pairs that interact
 Single ==
@@ -84,6 +89,11 @@ Single ==
           [Base EXCEPT !.server = "unix"], [Base EXCEPT !.server = "tls", !.trust = "insecure"], [Base EXCEPT !.server = "tls", !.trust = "rootcert"],
           [Base EXCEPT !.server = "tls", !.trust = "none"], [Base EXCEPT !.server = "tls", !.trust = "insecure", !.keepalive = FALSE],
           [Base EXCEPT !.format = "json", !.body = TRUE, !.hdr = TRUE, !.name = "n"],
+          [Base EXCEPT !.server = "tls2", !.trust = "insecure"], [Base EXCEPT !.server = "tls2", !.trust = "rootcert", !.http2 = FALSE],
+          [Base EXCEPT !.server = "tls2", !.trust = "insecure", !.lazy = FALSE, !.rate = 0, !.maxw = 3],
+          [Base EXCEPT !.server = "tls", !.trust = "insecure", !.http2 = FALSE],
+          [Base EXCEPT !.server = "h2c", !.h2c = TRUE], [Base EXCEPT !.server = "h2c"], [Base EXCEPT !.server = "h2c", !.h2c = TRUE, !.lazy = FALSE, !.rate = 0, !.maxw = 3],
+          [Base EXCEPT !.server = "h2c", !.h2c = TRUE, !.body = TRUE, !.hdr = TRUE, !.maxbody = 2],
           [Base EXCEPT !.maxconn = 1], [Base EXCEPT !.maxconn = 1, !.maxw = 3], [Base EXCEPT !.connectto = TRUE, !.hosts = 2],
           [Base EXCEPT !.lazy = FALSE, !.rate = 0, !.maxw = 3, !.maxconn = 1], [Base EXCEPT !.lazy = FALSE, !.rate = 0, !.maxw = 3, !.maxconn = 2],
           [Base EXCEPT !.lazy = FALSE, !.rate = 0, !.maxw = 3, !.maxconn = 1, !.connectto = TRUE, !.hosts = 2],
@@ -111,11 +121,13 @@ StatusOf(c, i) == IF SlowList(c) THEN 200
                   ELSE IF i = 5 THEN 404 ELSE IF i = 4 /\ c.redirects = "nofollow" THEN 302 ELSE 200
 HostOf(c, i) == IF ~c.connectto THEN "127.0.0.1" ELSE IF c.hosts = 2 /\ i % 2 = 0 THEN "E2Eb.invalid" ELSE "E2E.invalid"
 \* what the attack can have in flight at once: the workers, and per host the connections
-Capacity(c) == IF c.maxconn = 0 THEN c.maxw ELSE Min(c.maxw, c.hosts * c.maxconn)
+Capacity(c) == IF c.maxconn = 0 \/ c.h2c \/ (c.server = "tls2" /\ c.http2) THEN c.maxw ELSE Min(c.maxw, c.hosts * c.maxconn)   \* HTTP/2 multiplexes
 TimesOut(c, i) == ~SlowList(c) /\ i = 6 /\ c.timeout = "short"
 Captured(c, i) == IF c.maxbody < 0 THEN RespSize(c, i) ELSE Min(c.maxbody, RespSize(c, i))
 
 (*------------------------------ the contract ------------------------------*)
+\* the protocol the server sees
+Proto(c) == IF (c.server = "tls2" /\ c.http2) \/ c.h2c THEN "HTTP/2.0" ELSE "HTTP/1.1"
 Reaches(c) == c.trust # "none"                       \* hits reach the handler of the server
 SetupFails(c) == c.bad = "late" /\ ~c.lazy           \* reading all targets first meets the malformed one
 
@@ -149,9 +161,10 @@ ResultOK(c, o, r) ==
 RequestOK(c, o, q) ==
     /\ \E k \in 1..Len(o.results) : o.results[k].seq = q.seq /\ o.results[k].kind = "hit"      \* no request without a result
     /\ q.attack = c.name
-    /\ q.tls = (c.server = "tls")
+    /\ q.tls = (c.server \in {"tls", "tls2"})
+    /\ q.proto = Proto(c)
     /\ (c.laddr => q.ip = "127.0.0.2")
-    /\ q.flag = (IF c.hdr THEN <<"a", "b">> ELSE <<>>)                  \* both -header flags, in order
+    /\ q.flag = (IF c.hdr THEN <<"a", "b">> ELSE <<>>)                  \* both -header flags (values sorted by the harness: HTTP/2 has no order between them)
     /\ LET r == o.results[CHOOSE k \in 1..Len(o.results) : o.results[k].seq = q.seq]
            i == r.idx
        IN /\ i \in 1..K
@@ -159,7 +172,7 @@ RequestOK(c, o, q) ==
           /\ (q.path # "/redirect/0" =>
                 /\ q.method = MethodOf(c, i) /\ q.path = PathOf(c, i)
                 /\ q.body = BodyOf(c, i)
-                /\ q.chunked = (c.chunked /\ BodyOf(c, i) # "")
+                /\ (Proto(c) = "HTTP/1.1" => q.chunked = (c.chunked /\ BodyOf(c, i) # ""))
                 /\ q.own = (IF ~SlowList(c) /\ i = 5 THEN <<"1">> ELSE <<>>))
 
 CmdOK(c, o) ==
@@ -191,10 +204,10 @@ CmdOK(c, o) ==
        /\ (c.timeout = "default" => MaxConc(o) <= c.maxw)
        /\ (SlowList(c) /\ Reaches(c) /\ Len(Hits(o)) >= 3 * c.maxw => MaxConc(o) = Capacity(c))
        \* -max-connections bounds what one host sees at once
-       /\ (c.maxconn > 0 /\ c.timeout = "default" => \A i \in 1..Len(o.reqs) : OverlapH(o, i) <= c.maxconn)
+       /\ (c.maxconn > 0 /\ c.timeout = "default" /\ Proto(c) = "HTTP/1.1" => \A i \in 1..Len(o.reqs) : OverlapH(o, i) <= c.maxconn)
        \* -keepalive=false: a connection per request; one sequential worker with keep-alive stays on one connection
-       /\ (~c.keepalive /\ Reaches(c) /\ c.server # "unix" => Cardinality({o.reqs[j].conn : j \in 1..Len(o.reqs)}) = Len(o.reqs))
-       /\ (c.keepalive /\ c.maxw = 1 /\ c.timeout = "default" /\ Reaches(c) /\ c.server # "unix" => Cardinality({o.reqs[j].conn : j \in 1..Len(o.reqs)}) = c.hosts)
+       /\ (~c.keepalive /\ Reaches(c) /\ c.server # "unix" /\ Proto(c) = "HTTP/1.1" => Cardinality({o.reqs[j].conn : j \in 1..Len(o.reqs)}) = Len(o.reqs))
+       /\ (c.keepalive /\ c.maxw = 1 /\ c.timeout = "default" /\ Reaches(c) /\ c.server # "unix" /\ Proto(c) = "HTTP/1.1" => Cardinality({o.reqs[j].conn : j \in 1..Len(o.reqs)}) = c.hosts)
        \* -prometheus-addr: by the time the last target is answered the exporter has counted the six results before it
        /\ (c.prom => o.prom_count >= 6)
 =============================================================================
